@@ -106,47 +106,7 @@ pub fn main(args: &[String]) -> i32 {
         let st = store.clone();
         let done = done.clone();
         let h = rt.spawn(async move {
-            let mut rx = st.read(opts).await;
-            let mut items: Vec<String> = Vec::new();
-            let mut closed = false;
-            loop {
-                match tokio::time::timeout(Duration::from_millis(50), rx.recv()).await {
-                    Ok(Some(f)) => {
-                        if f.topic == "xs.threshold" {
-                            items.push("t".into());
-                        } else if f.topic == "xs.pulse" {
-                            items.push("p".into());
-                        } else {
-                            items.push(format!("r:{}:{}", id_hex(&f.id), id_hex(&f.context_id)));
-                        }
-                    }
-                    Ok(None) => {
-                        closed = true;
-                        break;
-                    }
-                    Err(_) => {
-                        if done.load(Ordering::SeqCst) {
-                            // writers finished and nothing arrived for a while: one more grace period
-                            match tokio::time::timeout(Duration::from_millis(400), rx.recv()).await {
-                                Ok(Some(f)) => {
-                                    if f.topic == "xs.pulse" {
-                                        items.push("p".into());
-                                    } else if f.topic == "xs.threshold" {
-                                        items.push("t".into());
-                                    } else {
-                                        items.push(format!("r:{}:{}", id_hex(&f.id), id_hex(&f.context_id)));
-                                    }
-                                }
-                                Ok(None) => {
-                                    closed = true;
-                                    break;
-                                }
-                                Err(_) => break,
-                            }
-                        }
-                    }
-                }
-            }
+            let (items, closed) = follow(st, opts, done, 0).await;
             (name, items, closed)
         });
         fhandles.push(h);
@@ -208,6 +168,23 @@ pub fn main(args: &[String]) -> i32 {
             eph
         }));
     }
+    // late followers join in the middle of the burst and consume their first items slowly: their historical
+    // replay is still running while stored and ephemeral frames keep arriving (the history -> live hand-off)
+    let total = n_writers * per_writer;
+    while appended.load(Ordering::SeqCst) < total / 3 {
+        std::thread::sleep(Duration::from_millis(1));
+    }
+    for (name, opts) in [
+        ("late_all".to_string(), ReadOptions::builder().follow(FollowOption::On).build()),
+        ("late_ctx1".to_string(), ReadOptions::builder().follow(FollowOption::On).context_id(c1).build()),
+    ] {
+        let st = store.clone();
+        let done = done.clone();
+        fhandles.push(rt.spawn(async move {
+            let (items, closed) = follow(st, opts, done, 150).await;
+            (name, items, closed)
+        }));
+    }
     let mut ephemeral: Vec<String> = Vec::new();
     for h in whandles {
         ephemeral.extend(h.join().unwrap());
@@ -239,4 +216,49 @@ pub fn main(args: &[String]) -> i32 {
     });
     std::fs::write(out, serde_json::to_vec(&j).unwrap()).unwrap();
     unsafe { libc::_exit(0) }
+}
+
+
+/// one follower: everything it is sent until the stream closes or the writers are done and nothing
+/// arrives any more; the first `slow_first` items are consumed slowly (stretches the historical replay
+/// through the reader channel's back-pressure)
+async fn follow(st: Store, opts: ReadOptions, done: Arc<AtomicBool>, slow_first: usize) -> (Vec<String>, bool) {
+    let mut rx = st.read(opts).await;
+    let mut items: Vec<String> = Vec::new();
+    let mut closed = false;
+    let label = |f: &Frame| {
+        if f.topic == "xs.threshold" {
+            "t".to_string()
+        } else if f.topic == "xs.pulse" {
+            "p".to_string()
+        } else {
+            format!("r:{}:{}", id_hex(&f.id), id_hex(&f.context_id))
+        }
+    };
+    loop {
+        if items.len() < slow_first {
+            tokio::time::sleep(Duration::from_millis(2)).await;
+        }
+        match tokio::time::timeout(Duration::from_millis(50), rx.recv()).await {
+            Ok(Some(f)) => items.push(label(&f)),
+            Ok(None) => {
+                closed = true;
+                break;
+            }
+            Err(_) => {
+                if done.load(Ordering::SeqCst) {
+                    // writers finished and nothing arrived for a while: one more grace period
+                    match tokio::time::timeout(Duration::from_millis(400), rx.recv()).await {
+                        Ok(Some(f)) => items.push(label(&f)),
+                        Ok(None) => {
+                            closed = true;
+                            break;
+                        }
+                        Err(_) => break,
+                    }
+                }
+            }
+        }
+    }
+    (items, closed)
 }
